@@ -183,7 +183,7 @@ func registerIOModels(e *Engine) {
 		c.axiom(Implies(fails, Lt(n, StrLen(p)))) // conforming writer: short write <=> error
 		c.setFailed(fails)
 		out := e.ghostGet(c.st, "out", StringS, key)
-		e.ghostSet(c.st, "out", StringS, key, Concat(out, StrSubstr(p, IntT(0), n)))
+		e.ghostSet(c.st, "out", StringS, key, Concat(out, Ite(fails, StrSubstr(p, IntT(0), n), p)))
 		e.ghostSet(c.st, "wfailed", BoolS, key, Or(e.ghostGet(c.st, "wfailed", BoolS, key), fails))
 		return c.ret(n, Ite(fails, e.libErr("write"), NilIface))
 	}
